@@ -118,66 +118,150 @@ Example C12_sliding_window_refuted :
 Proof. exact sliding_window_refuted. Qed.
 Print Assumptions C12_sliding_window_refuted.
 
-(** ** Sessions *)
+(** ** Sessions
 
-(** In every reachable state the map in memory and the bucket on disk agree. *)
-Theorem C12_mirror : forall ttl h, ss_mem (srun ttl s_init h) = ss_disk (srun ttl s_init h).
+    The map in memory is keyed by the cookie STRING, the bucket of
+    sessions.db by the decoded bytes; [checkSession] looks the string up as
+    sent, [removeSession] deletes the string from the map and the bytes
+    [hex.DecodeString] yields from the bucket, a reload re-encodes the bucket
+    keys in lower case (Model/Session.v).  Histories: [SNew] a login issuing
+    a token, [SCheck] a request with a cookie of any spelling, [SLogout] a
+    GET /control/logout with a cookie of any spelling (optionalAuth's check,
+    then removeSession), [SRemove] removeSession called directly, [SRestart].
+    [wf_new]: issued tokens are byte strings.  [wf_http]: in addition a direct
+    [SRemove] only with a canonical (lower-case, even-length, all-hex)
+    spelling: every history that comes in over HTTP. *)
+
+(** In every state reachable over HTTP the map in memory is the bucket on
+    disk under [hex.EncodeToString]. *)
+Theorem C12_mirror : forall ttl h, Forall wf_http h ->
+  ss_mem (srun ttl s_init h) = kmap hex_encode (ss_disk (srun ttl s_init h)) /\
+  map_Forall (fun k _ => is_bytes k) (ss_disk (srun ttl s_init h)).
 Proof. exact reachable_mirror. Qed.
 Print Assumptions C12_mirror.
 
-(** "Only": a token authenticates at [t] only if an earlier event (its login,
-    or a request that was itself accepted) set its expiry from a clock value
-    [t0] with [t] before [t0 + ttl] in 32-bit arithmetic, with no logout of
-    the token since.  For every history, restarts included. *)
-Theorem C12_session_window : forall ttl h t tok,
-  authenticates ttl t tok (srun ttl s_init h) = true ->
-  exists e, granted ttl h tok e /\ (u32 t < e)%N.
+(** For EVERY history (direct removals with any spelling included) the bucket
+    holds nothing that memory does not: a restart cannot bring a session
+    back. *)
+Theorem C12_restart_no_resurrection : forall ttl h now sp s,
+  Forall wf_new h ->
+  ss_mem (restart now (srun ttl s_init h)) !! sp = Some s -> ss_mem (srun ttl s_init h) !! sp = Some s.
+Proof. exact restart_no_new. Qed.
+Print Assumptions C12_restart_no_resurrection.
+
+(** Only the spelling the token was issued with authenticates. *)
+Theorem C12_only_canonical_spelling : forall ttl h t sp,
+  Forall wf_new h -> authenticates ttl t sp (srun ttl s_init h) = true ->
+  hex_encode (hex_decode_prefix sp) = sp.
+Proof. exact only_canonical_authenticates. Qed.
+Print Assumptions C12_only_canonical_spelling.
+
+(** "Only": a cookie authenticates at [t] only if an earlier event (the login
+    issuing this spelling, or a request with it that was itself accepted) set
+    its expiry from a clock value [t0] with [t] before [t0 + ttl] in 32-bit
+    arithmetic, with no logout request or removal with this spelling since.
+    For every history, restarts included. *)
+Theorem C12_session_window : forall ttl h t sp,
+  Forall wf_new h ->
+  authenticates ttl t sp (srun ttl s_init h) = true ->
+  exists e, granted ttl h sp e /\ (u32 t < e)%N.
 Proof. exact session_window_sound. Qed.
 Print Assumptions C12_session_window.
 
-Theorem C12_never_issued : forall ttl h t tok,
-  Forall (fun o => forall t0 u, o <> SNew t0 tok u) h ->
-  authenticates ttl t tok (srun ttl s_init h) = false.
+Theorem C12_never_issued : forall ttl h t sp,
+  Forall (fun o => wf_new o /\ ~ issues sp o) h ->
+  authenticates ttl t sp (srun ttl s_init h) = false.
 Proof. exact never_issued. Qed.
 Print Assumptions C12_never_issued.
 
-Theorem C12_logout_final : forall ttl h1 h2 t tok,
-  Forall (fun o => forall t0 u, o <> SNew t0 tok u) h2 ->
-  authenticates ttl t tok (srun ttl s_init (h1 ++ SLogout tok :: h2)) = false.
+(** An accepted logout request kills the TOKEN: no spelling that decodes to
+    the same key authenticates afterwards, at any time, across restarts and
+    whatever else happens, unless the same 16 bytes are issued again. *)
+Theorem C12_logout_final : forall ttl h1 h2 now t sp sp',
+  Forall wf_new h1 ->
+  authenticates ttl now sp (srun ttl s_init h1) = true ->
+  hex_decode_prefix sp' = hex_decode_prefix sp ->
+  Forall (fun o => wf_new o /\ forall t0 raw u, o = SNew t0 raw u -> raw <> hex_decode_prefix sp) h2 ->
+  authenticates ttl t sp' (srun ttl s_init (h1 ++ SLogout now sp :: h2)) = false.
 Proof. exact logout_final. Qed.
 Print Assumptions C12_logout_final.
 
-Theorem C12_expired_final : forall ttl h1 h2 now t tok,
-  snd (check_session ttl now tok (srun ttl s_init h1)) = CSExpired ->
-  Forall (fun o => forall t0 u, o <> SNew t0 tok u) h2 ->
-  authenticates ttl t tok (srun ttl s_init (h1 ++ SCheck now tok :: h2)) = false.
+(** Any logout request or removal, accepted or not, with any spelling: that
+    spelling does not authenticate afterwards. *)
+Theorem C12_removed_final : forall ttl h1 h2 o t sp,
+  removes sp o -> Forall wf_new h1 ->
+  Forall (fun o => wf_new o /\ ~ issues sp o) h2 ->
+  authenticates ttl t sp (srun ttl s_init (h1 ++ o :: h2)) = false.
+Proof. exact removed_final. Qed.
+Print Assumptions C12_removed_final.
+
+Theorem C12_expired_final : forall ttl h1 h2 now t sp,
+  Forall wf_new h1 ->
+  snd (check_session ttl now sp (srun ttl s_init h1)) = CSExpired ->
+  Forall (fun o => wf_new o /\ ~ issues sp o) h2 ->
+  authenticates ttl t sp (srun ttl s_init (h1 ++ SCheck now sp :: h2)) = false.
 Proof. exact expired_final. Qed.
 Print Assumptions C12_expired_final.
 
-(** "Always inside": from its creation at [t0] until [t0 + ttl] a token that
-    is not logged out authenticates, whatever else happens in between. *)
-Theorem C12_session_window_complete : forall ttl h1 h2 t0 t tok u,
-  Forall (fun o => o <> SLogout tok /\ (forall t' u', o <> SNew t' tok u') /\
-                   (forall t', op_time o = Some t' -> (t0 <= t' <= t)%N)) h2 ->
+(** "Always inside": from its creation at [t0] until [t0 + ttl] a token
+    authenticates under the spelling it was issued with, whatever else happens
+    in between (requests and logout requests with other spellings of it
+    included), as long as no logout request or removal uses that spelling, no
+    direct removal uses another spelling of it, and it is not issued twice. *)
+Theorem C12_session_window_complete : forall ttl h1 h2 t0 t raw u,
+  Forall wf_new (h1 ++ SNew t0 raw u :: h2) ->
+  Forall (fun o => spares raw o /\ (forall t', op_time o = Some t' -> (t0 <= t' <= t)%N)) h2 ->
   (t0 <= t)%N -> (t < t0 + ttl)%N -> (t + ttl < 4294967296)%N ->
-  authenticates ttl t tok (srun ttl s_init (h1 ++ SNew t0 tok u :: h2)) = true.
+  authenticates ttl t (hex_encode raw) (srun ttl s_init (h1 ++ SNew t0 raw u :: h2)) = true.
 Proof. exact session_window_complete. Qed.
 Print Assumptions C12_session_window_complete.
 
 (** Any number of restarts, at any instants up to [t], leave the answer for
-    every token at [t] as it was. *)
-Theorem C12_restart_preserves : forall ttl h nows t tok,
+    every cookie at [t] as it was. *)
+Theorem C12_restart_preserves : forall ttl h nows t sp,
+  Forall wf_http h ->
   Forall (fun n => (u32 n <= u32 t)%N) nows ->
-  authenticates ttl t tok (restarts nows (srun ttl s_init h)) =
-  authenticates ttl t tok (srun ttl s_init h).
+  authenticates ttl t sp (restarts nows (srun ttl s_init h)) =
+  authenticates ttl t sp (srun ttl s_init h).
 Proof. exact restart_preserves. Qed.
 Print Assumptions C12_restart_preserves.
 
+(** Function level only, and why [C12_mirror] asks for [wf_http]:
+    [removeSession] with the upper-case spelling of a live token empties the
+    bucket entry and leaves the map entry (the session lives on until the next
+    restart).  Over HTTP the same spelling is refused by the logout route and
+    changes nothing. *)
+Example C12_remove_other_spelling_refuted :
+  let h := [SNew 1000 ex_raw [97%N]; SRemove ex_upper] in
+  hex_decode_prefix ex_upper = ex_raw /\
+  authenticates 3600 2000 (hex_encode ex_raw) (srun 3600 s_init h) = true /\
+  ss_disk (srun 3600 s_init h) !! ex_raw = None /\
+  authenticates 3600 2000 (hex_encode ex_raw) (srun 3600 s_init (h ++ [SRestart 1500])) = false /\
+  authenticates 3600 2000 (hex_encode ex_raw) (srun 3600 s_init [SNew 1000 ex_raw [97%N]; SLogout 1200 ex_upper; SRestart 1500]) = true.
+Proof. exact remove_other_spelling_refuted. Qed.
+Print Assumptions C12_remove_other_spelling_refuted.
+
+(** The two key-handling slips the theorems exclude: lower-casing on the check
+    side only (an accepted logout leaves the session alive), no hex decoding
+    on the removal side (a logged-out session is back after a restart). *)
+Example C12_key_slips_refuted :
+  let st := new_session 3600 1000 ex_raw [97%N] s_init in
+  authenticates 3600 1100 (to_lower ex_upper) st = true /\
+  authenticates 3600 1300 (to_lower ex_upper) (slip1_logout_request 3600 1200 ex_upper st) = true /\
+  authenticates 3600 1300 (hex_encode ex_raw) (slip2_logout (hex_encode ex_raw) st) = false /\
+  authenticates 3600 1300 (hex_encode ex_raw) (restart 1250 (slip2_logout (hex_encode ex_raw) st)) = true /\
+  authenticates 3600 1300 (hex_encode ex_raw) (fst (logout_request 3600 1200 (hex_encode ex_raw) st)) = false /\
+  authenticates 3600 1300 (hex_encode ex_raw) (restart 1250 (fst (logout_request 3600 1200 (hex_encode ex_raw) st))) = false.
+Proof. exact key_slips_refuted. Qed.
+Print Assumptions C12_key_slips_refuted.
+
 Example C12_session_premises_satisfiable :
-  let h := [SNew 1000 7 [97%N]; SCheck 1500 7; SRestart 2000; SCheck 2500 7] in
-  authenticates 3600 3000 7 (srun 3600 s_init h) = true /\
-  authenticates 3600 4600 7 (srun 3600 s_init h) = false /\
-  authenticates 3600 3000 7 (srun 3600 s_init (h ++ [SLogout 7; SRestart 3000])) = false /\
-  authenticates 3600 3000 8 (srun 3600 s_init h) = false.
+  let h := [SNew 1000 ex_tok [97%N]; SCheck 1500 ex_sp; SRestart 2000; SCheck 2500 ex_sp] in
+  Forall wf_http h /\
+  authenticates 3600 3000 ex_sp (srun 3600 s_init h) = true /\
+  authenticates 3600 4600 ex_sp (srun 3600 s_init h) = false /\
+  authenticates 3600 3000 ex_sp (srun 3600 s_init (h ++ [SLogout 2600 ex_sp; SRestart 3000])) = false /\
+  authenticates 3600 3000 [48; 55; 67; 56]%N (srun 3600 s_init h) = false /\
+  authenticates 3600 3000 [48; 56]%N (srun 3600 s_init h) = false.
 Proof. exact session_premises_satisfiable. Qed.
 Print Assumptions C12_session_premises_satisfiable.
